@@ -18,7 +18,7 @@ echo "== demo WITH the change (must fail)"
 (cd $WT/$PKG && go test -count=1 -run . . 2>&1 | tail -5)
 rm -f $WT/$PKG/zz_seed_demo_test.go
 echo "== existing suite WITH the change (must pass; controllers/TestAPIs needs etcd and fails on the pristine tree too)"
-(cd $WT && go build ./... && go test -count=1 ./... 2>&1 | grep -v "^ok\|no test files" | head -10; cd api && go test -count=1 ./... 2>&1 | grep -v "^ok\|no test files" | head -5)
+(cd $WT && go build ./... && go test -count=1 ./... > /tmp/seedverify-$ID.log 2>&1; echo "root module: $(grep -c '^ok' /tmp/seedverify-$ID.log) packages ok; failing: $(grep '^FAIL' /tmp/seedverify-$ID.log | tr '\n' ' ')"; cd api && go test -count=1 ./... > /tmp/seedverify-$ID.log 2>&1;  echo "api module: $(grep -c '^ok' /tmp/seedverify-$ID.log) packages ok; failing: $(grep '^FAIL' /tmp/seedverify-$ID.log | tr '\n' ' ')"; rm -f /tmp/seedverify-$ID.log)
 cd /verif
 git -C /repo worktree remove --force $WT
 echo "== checks against the change"
